@@ -7,7 +7,7 @@ use proptest::prelude::*;
 use serde::{Deserialize, Serialize};
 use std::cell::Cell;
 
-/// value kinds: 0 Int32, 1 Double, 2 String, 3 ByteString, 4 Boolean, 5 Int32 array, 6 String array, 7 Byte array
+/// value kinds: 0 Int32, 1 Double, 2 String, 3 ByteString, 4 Boolean, 5 Int32 array, 6 String array, 7 Byte array, 9 Byte (8 = Empty, written values only)
 #[derive(Clone, Debug, Serialize, Deserialize, PartialEq)]
 pub struct Var {
     pub kind: u8,
@@ -37,8 +37,18 @@ fn make_string(seed: u16, ascii: bool) -> String {
     (0..n).map(|i| CHARS[if ascii { (seed as usize + i) % 3 } else { (seed as usize / 7 + i * 3) % CHARS.len() }]).collect()
 }
 
+/// kinds 0..7 as listed (taken modulo 8, as older replay files rely on), 9 = scalar Byte
+fn norm(kind: u8) -> u8 {
+    if kind == 9 {
+        9
+    } else {
+        kind % 8
+    }
+}
+
 fn make_value(kind: u8, seed: u16) -> Variant {
-    match kind % 8 {
+    match norm(kind) {
+        9 => Variant::Byte(seed as u8),
         0 => Variant::Int32(seed as i32 - 1000),
         1 => Variant::Double(seed as f64 / 8.0),
         2 => Variant::from(make_string(seed, seed % 3 == 0)),
@@ -51,7 +61,7 @@ fn make_value(kind: u8, seed: u16) -> Variant {
 }
 
 fn data_type(kind: u8) -> DataTypeId {
-    match kind % 8 {
+    match norm(kind) {
         0 | 5 => DataTypeId::Int32,
         1 => DataTypeId::Double,
         2 | 6 => DataTypeId::String,
@@ -62,7 +72,7 @@ fn data_type(kind: u8) -> DataTypeId {
 }
 
 fn is_array_kind(kind: u8) -> bool {
-    kind % 8 >= 5
+    (5..=7).contains(&norm(kind))
 }
 
 fn range_string(sel: u8, a: u8, b: u8) -> Option<String> {
@@ -79,13 +89,13 @@ fn range_string(sel: u8, a: u8, b: u8) -> Option<String> {
 }
 
 fn var_strategy() -> impl Strategy<Value = Var> {
-    (0u8..8, any::<u16>(), prop_oneof![Just(3u8), Just(1u8), Just(2u8), Just(0u8), any::<u8>()], prop_oneof![3 => Just(3u8), 2 => Just(1u8), 1 => Just(2u8), 1 => Just(0u8), 1 => any::<u8>()]).prop_map(|(kind, seed, access_level, user_access_level)| Var { kind, seed, access_level, user_access_level })
+    (prop_oneof![8 => 0u8..8, 2 => Just(9u8)], any::<u16>(), prop_oneof![Just(3u8), Just(1u8), Just(2u8), Just(0u8), any::<u8>()], prop_oneof![3 => Just(3u8), 2 => Just(1u8), 1 => Just(2u8), 1 => Just(0u8), 1 => any::<u8>()]).prop_map(|(kind, seed, access_level, user_access_level)| Var { kind, seed, access_level, user_access_level })
 }
 
 fn op_strategy() -> impl Strategy<Value = Op> {
     prop_oneof![
         1 => (0u8..4, prop_oneof![6 => Just(13u8), 2 => 0u8..31], 0u8..10, any::<u8>(), any::<u8>()).prop_map(|(v, a, s, x, y)| Op::Read(v, a, s, x, y)),
-        1 => (0u8..4, prop_oneof![8 => Just(13u8), 1 => 0u8..31], 0u8..10, any::<u8>(), any::<u8>(), 0u8..9, any::<u16>()).prop_map(|(v, a, s, x, y, k, sd)| Op::Write(v, a, s, x, y, k, sd)),
+        1 => (0u8..4, prop_oneof![8 => Just(13u8), 1 => 0u8..31], 0u8..10, any::<u8>(), any::<u8>(), 0u8..10, any::<u16>()).prop_map(|(v, a, s, x, y, k, sd)| Op::Write(v, a, s, x, y, k, sd)),
     ]
 }
 
@@ -211,7 +221,7 @@ fn run(ctx: &Ctx, c: &Case) -> PResult {
                         }
                         continue;
                     };
-                    if range.is_some() && (is_array_kind(var.kind) || matches!(var.kind % 8, 2 | 3)) {
+                    if range.is_some() && (is_array_kind(var.kind) || matches!(norm(var.kind), 2 | 3)) {
                         interesting = true;
                         if matches!(current, Variant::String(s) if !s.as_ref().is_ascii()) {
                             ctx.class("range_read_on_non_ascii_string");
@@ -221,7 +231,7 @@ fn run(ctx: &Ctx, c: &Case) -> PResult {
                         Some(Ok(want)) => {
                             // a Bad status is allowed by the property; a Good one must carry the right data
                             if status.is_good() && dv.value.as_ref() != Some(&want) {
-                                return ctx.fail("read/wrong-value", format!("step {}: read of variable {} (kind {}) with range {:?} returned {:?}, the value written is {:?} whose range is {:?}", step, k, var.kind % 8, range, dv.value, current, want));
+                                return ctx.fail("read/wrong-value", format!("step {}: read of variable {} (kind {}) with range {:?} returned {:?}, the value written is {:?} whose range is {:?}", step, k, norm(var.kind), range, dv.value, current, want));
                             }
                             if range.is_none() && !status.is_good() {
                                 return ctx.fail("read/full-read-failed", format!("step {}: plain read of readable variable {} answered {}", step, k, status));
@@ -308,7 +318,7 @@ fn run(ctx: &Ctx, c: &Case) -> PResult {
                     }
                     let writable = UserAccessLevel::from_bits_truncate(var.user_access_level).contains(UserAccessLevel::CURRENT_WRITE);
                     let same_type = *kind == 8 || data_type(*kind) == data_type(var.kind);
-                    let compatible = same_type || (*kind % 8 == 3 && var.kind % 8 == 7);
+                    let compatible = same_type || (norm(*kind) == 3 && norm(var.kind) == 7);
                     if status.is_good() {
                         if !writable {
                             return ctx.fail("write/accepted-without-write-access", format!("step {}: variable {} has user access level {:#x} (access level {:#x}) and the write was answered Good", step, k, var.user_access_level, var.access_level));
@@ -318,7 +328,7 @@ fn run(ctx: &Ctx, c: &Case) -> PResult {
                         }
                         match &range {
                             None => {
-                                let stored = if *kind % 8 == 3 && var.kind % 8 == 7 && *kind != 8 { value.to_byte_array().unwrap_or(value.clone()) } else { value.clone() };
+                                let stored = if norm(*kind) == 3 && norm(var.kind) == 7 && *kind != 8 { value.to_byte_array().unwrap_or(value.clone()) } else { value.clone() };
                                 if after.value.as_ref() != Some(&stored) {
                                     return ctx.fail("write/good-but-not-stored", format!("step {}: write of {:?} answered Good, the variable holds {:?}", step, stored, after.value));
                                 }
@@ -388,7 +398,7 @@ fn run(ctx: &Ctx, c: &Case) -> PResult {
 pub fn def() -> PropDef {
     PropDef {
         id: "C32",
-        rule: "1..4 variables (Int32, Double, String with 1-4 byte characters, ByteString, Boolean, Int32 array, String array, Byte array) with generated access level and user access level bits, histories of up to 20 Read / Write requests through the real dispatcher with attribute id 0..30 (mostly Value), index range strings (none, index, range inside / outside, reversed, malformed, multi-dimensional) and written values of every kind or Empty; oracle: every request is answered; a Good write to Value implies CURRENT_WRITE in the user access level and a compatible type, the stored value equals the written one (well-formed array range writes are modelled element-wise); a Bad write leaves the value and status identical; a Good read returns the model value or its sub-range (string ranges on byte offsets where they fall on character boundaries, any Bad status elsewhere); non-trivial = a range read or write on a string, byte string or array, or a write refused for access; distinct = distinct case",
+        rule: "1..4 variables (Int32, Double, String with 1-4 byte characters, ByteString, Boolean, Byte, Int32 array, String array, Byte array) with generated access level and user access level bits, histories of up to 20 Read / Write requests through the real dispatcher with attribute id 0..30 (mostly Value), index range strings (none, index, range inside / outside, reversed, malformed, multi-dimensional) and written values of every kind or Empty; oracle: every request is answered; a Good write to Value implies CURRENT_WRITE in the user access level and a compatible type, the stored value equals the written one (well-formed array range writes are modelled element-wise); a Bad write leaves the value and status identical; a Good read returns the model value or its sub-range (string ranges on byte offsets where they fall on character boundaries, any Bad status elsewhere); non-trivial = a range read or write on a string, byte string or array, or a write refused for access; distinct = distinct case",
         assumptions: &["ill-formed range writes that the server answers Good are not modelled (the model adopts what the variable then holds)", "a Bad status instead of data is always accepted for reads with an index range"],
         abort_possible: false,
         parts: |tier| vec![part("read_write_history", tier.pick(2000, 50000), (prop::collection::vec(var_strategy(), 1..5), prop::collection::vec(op_strategy(), 1..20)).prop_map(|(vars, ops)| Case { vars, ops }), run)],
